@@ -303,6 +303,26 @@ def run(ctx):
             else:
                 r3.ok("%s:raw#%s/%s" % (short, p.variant, const_val(strip_refs(p.rankval)) if p.rankval is not None and strip_refs(p.rankval).k == "const" else "?"),
                       "raw text pushed from %r" % (pe,))
+    # ---------------- R4 the curled quotes stay punctuation for the splitter (same preselection with the option on and off)
+    r4 = chk.rule("C17.R4", "the quotes the quoter produces are punctuation for the splitter",
+                  "same preselection with the option on and off (a committed curled candidate must be stripped like a straight one)")
+    sets = common.str_literal_sets(prog, sp)
+    for ck in prog.closures_of(sp):
+        sets += common.str_literal_sets(prog, ck)
+    meta = set("".join(s_ for s_, bb in sets))
+    qout = set()
+    for (bb, t) in qb.calls():
+        if callee_name(t).endswith("String::push"):
+            v = strip_refs(qb.expr_operand(t["args"][1]))
+            if is_const(v, "char"):
+                qout.add(const_val(v))
+    for ch in sorted(qout):
+        if ch in meta:
+            r4.ok("U+%04X" % ord(ch), "in the splitter's punctuation set")
+        else:
+            r4.violation("U+%04X" % ord(ch), "the quoter emits U+%04X but the splitter does not treat it as punctuation: with the option on a learned choice for a "
+                         "quoted word is stored with the quote and the preselection differs from the option-off run" % ord(ch), common.fn_line(prog, sp))
+    r4.floor(4, "four curly quotes")
     r2.floor(8, "two builders × (guard, reached, result, order)")
     r3.floor(3, "emoticon literal, phonetic English, fixed English")
 
